@@ -85,6 +85,8 @@ def classify(e):
             return "EZeroNotl"
         if "Last value" in m:
             return "EZeroBase"
+        if "float division by zero" in m or "division by zero" in m:
+            return "EZeroDiv"
         return "EOther:ZeroDivisionError"
     if isinstance(e, AttributeError):
         return "EAttr"
@@ -169,6 +171,14 @@ def dump_node(out, path, n, dts):
         out.append("%s hg_bopaid %s" % (path, pl(n._bidoffers_paid.values)))
     for c in n._strat_children:
         out.append("%s ucol.%d %s" % (path, id_of(c), pl(n._universe[c].values)))
+    for j, (tnow, res, sel, wts, stat) in enumerate(getattr(n, "_vtrace", [])):
+        out.append("%s trace.%d.res %s %s" % (path, j, now(tnow), pb(res)))
+        if sel is not None:
+            out.append("%s trace.%d.selected %s" % (path, j, " ".join(str(id_of(x)) for x in sel)))
+        if wts is not None:
+            out.append("%s trace.%d.weights %s" % (path, j, " ".join("%d %s" % (id_of(k), pf(v)) for k, v in wts)))
+        if stat is not None:
+            out.append("%s trace.%d.stat %s" % (path, j, " ".join("%d %s" % (id_of(k), pf(v)) for k, v in stat)))
     for c in n._childrenv:
         dump_node(out, "%s.%d" % (path, id_of(c.name)), c, dts)
     if n._paper_trade:
@@ -179,6 +189,28 @@ def dump_node(out, path, n, dts):
 def dump_tree(out, root, dts):
     out.append("r stale %s" % pb(root.stale))
     dump_node(out, "r", root, dts)
+
+
+def install_trace():
+    """log (now, result, temp) at the end of every top-level stack call; the library code itself is
+    not replaced: the wrapper calls the original AlgoStack.__call__"""
+    orig = core.AlgoStack.__call__
+    if getattr(orig, "_verif_wrapped", False):
+        return
+
+    def wrapped(self, target):
+        res = orig(self, target)
+        if getattr(target, "stack", None) is self:
+            tm = target.temp
+            sel = list(tm["selected"]) if "selected" in tm else None
+            wts = list(tm["weights"].items()) if "weights" in tm else None
+            stat = list(tm["stat"].items()) if "stat" in tm and hasattr(tm["stat"], "items") else None
+            if not hasattr(target, "_vtrace"):
+                target._vtrace = []
+            target._vtrace.append((target.now, bool(res), sel, wts, stat))
+        return res
+    wrapped._verif_wrapped = True
+    core.AlgoStack.__call__ = wrapped
 
 
 def get_node(root, path):
